@@ -26,8 +26,10 @@ pub mod walkdir {
         pub fn file_type(&self) -> (r: fs::FileType) ensures r.kind() == self.ft_kind() { unimplemented!() }
         #[verifier::external_body]
         pub fn path_is_symlink(&self) -> (r: bool) { unimplemented!() }
+        /// the entry is the root of its walk (the source itself, depth 0), not an entry *of* the source directory
+        pub uninterp spec fn is_root(&self) -> bool;
         #[verifier::external_body]
-        pub fn depth(&self) -> (r: usize) { unimplemented!() }
+        pub fn depth(&self) -> (r: usize) ensures (r == 0) == self.is_root() { unimplemented!() }
         #[verifier::external_body]
         pub fn file_name(&self) -> (r: &OsStr) { unimplemented!() }
     }
@@ -164,7 +166,8 @@ impl GitignoreBuilder {
 #[verifier::external_body]
 pub fn ignore_filter(entry: &walkdir::DirEntry, ignore: &Option<Gitignore>) -> (r: bool)
     ensures ignore is None ==> r,
-        ignore is Some ==> r == !gi_ignored(ignore->Some_0, entry.pathkey(), entry.ft_kind() == NodeKind::Dir),
+        ignore is Some && entry.is_root() ==> r,
+        ignore is Some && !entry.is_root() ==> r == !gi_ignored(ignore->Some_0, entry.pathkey(), entry.ft_kind() == NodeKind::Dir),
 { unimplemented!() }
 
 pub uninterp spec fn any_from_walk(e: walkdir::Error) -> AnyError;
